@@ -1,7 +1,66 @@
-(* Property C02 - only authorised, well-formed transactions move coins, exactly as the rules say. *)
-From Virel Require Import Lib.Config Lib.U64 Lib.AMap Model.Ledger Model.Node Proofs.NodeBasics.
+(* Property C02 - only authorised, well-formed transactions move coins, exactly as the rules say.
+   The rules are Spec/Rules.v (preconditions and effects in exact arithmetic).  Statements only. *)
+From Virel Require Import Lib.Config Lib.U64 Lib.AMap Model.Emission Model.Ledger Model.Node Spec.Rules
+  Proofs.Conservation Proofs.Pointwise Proofs.Refine Proofs.NodeBasics Gen.Params.
 Open Scope N_scope.
 
+(* FULL STATEMENT: for every kind, whenever the code applies a stateless-valid transaction, the rules admit it and
+   prescribe the same ledger (accounts, delegate records as sets of funds, staked total). *)
+Definition C02_full : Prop := forall cfg team_key l t h bh l1,
+  total_bal l < two64 -> wf_tx cfg t ->
+  prevalidate_tx cfg team_key t h = Ok tt ->
+  apply_tx cfg l t h bh (h - 1) = Ok l1 ->
+  fst (spec_tx cfg team_key l t h) = 0 /\ same_accounts l1 (snd (spec_tx cfg team_key l t h)) /\
+  staked l1 = staked (snd (spec_tx cfg team_key l t h)).
+
+(* PROVED for transfers (all ledgers, all amounts, 1..32 outputs, duplicates, transfers to self, to pools and to the burn
+   address): the rules admit what the code applies - signature by the debited account's key, next nonce, minimum fee,
+   size, version regime, amounts + fee within 64 bits and within the balance - and both produce the same accounts,
+   delegate table and staked total.  Consequently a transfer the rules refuse is refused by the code.
+   The other four kinds are covered by the evaluation of the rules on the implementation's main chains (Check/C02.v:
+   ledger_of_chain on every dump) and by the conservation theorems of C01; their refinement proof is MISSING. *)
+Theorem C02_transfer_refines_partial : forall cfg team_key l t outs0 h bh top_h l1,
+  cfg_ok_fee cfg = true ->
+  tx_data t = TTransfer outs0 -> (tx_version t = 0 \/ tx_version t = 1) ->
+  total_bal l < two64 -> wf_tx cfg t ->
+  (forall a, inc (acct_at l a) + N.of_nat (length outs0) < two64) ->
+  nonce (acct_at l (addr_of_key (tx_signer t))) + 1 < two64 ->
+  prevalidate_tx cfg team_key t h = Ok tt ->
+  apply_tx cfg l t h bh top_h = Ok l1 ->
+  let '(c, ls) := spec_tx cfg team_key l t h in
+  c = 0 /\ same_accounts l1 ls /\ dlgs l1 = dlgs ls /\ staked l1 = staked ls.
+Proof. exact transfer_refines. Qed.
+Print Assumptions C02_transfer_refines_partial.
+
+Theorem C02_cfg_ok_fee_mainnet : cfg_ok_fee cfg_mainnet = true. Proof. vm_compute. reflexivity. Qed.
+Theorem C02_cfg_ok_fee_testnet : cfg_ok_fee cfg_testnet = true. Proof. vm_compute. reflexivity. Qed.
+Theorem C02_cfg_ok_fee_verifnet : cfg_ok_fee cfg_verifnet = true. Proof. vm_compute. reflexivity. Qed.
+
+(* all five kinds: stateless validation only passes a transaction signed by the signer's own key over this content for
+   this network, paying at least the minimum fee, within the size limit, with amounts + fee free of overflow *)
+Theorem C02_authorised : forall cfg team_key t h,
+  prevalidate_tx cfg team_key t h = Ok tt ->
+  tx_sig_by t = tx_signer t /\ tx_sig_by t <> 0 /\ tx_sig_msg t = true /\
+  wmul (if hf_v3 cfg <=? h then fee_per_byte_v2 cfg else fee_per_byte cfg) (tx_vsize cfg t) <= tx_fee t /\
+  tx_vsize cfg t <= max_tx_size cfg /\ tx_total cfg t <> None.
+Proof. exact prevalidate_authorised. Qed.
+Print Assumptions C02_authorised.
+
+(* all five kinds: a transaction takes effect only with the account's next nonce *)
+Theorem C02_next_nonce : forall cfg l t h bh top_h l',
+  apply_tx cfg l t h bh top_h = Ok l' ->
+  exists st, get_state l (addr_of_key (tx_signer t)) = Some st /\ tx_nonce t = wadd (nonce st) 1.
+Proof. exact apply_tx_next_nonce. Qed.
+Print Assumptions C02_next_nonce.
+
+(* all five kinds: the fee, and nothing else, leaves the accounts (it goes to the block's coinbase: C01) *)
+Theorem C02_fee_only : forall cfg l t h bh top_h l' tot,
+  total_bal l < two64 -> wf_tx cfg t -> tx_total cfg t = Some tot ->
+  apply_tx cfg l t h bh top_h = Ok l' -> total_bal l' + tx_fee t = total_bal l.
+Proof. exact apply_tx_total. Qed.
+Print Assumptions C02_fee_only.
+
+(* anything refused leaves the ledger untouched *)
 Theorem C02_rejected_unchanged : forall cfg genesis_addr team_key n b now n' c amb,
   deliver cfg genesis_addr team_key n b now = (n', Rejected c, amb) -> n' = n.
 Proof. exact deliver_rejected_unchanged. Qed.
